@@ -73,14 +73,24 @@ fn text_match(rtext: &TextRef, qtext: &TextRef) -> (ret: (Vec<WordMatch>, Vec<Wo
     requires text_wf(rtext), text_wf(qtext), text_small(rtext), text_small(qtext),
     ensures tm_post(rtext, qtext, ret), tm_some(rtext, qtext, ret), tm_empty(qtext, ret), tm_first(rtext, qtext, ret), tm_fin(qtext, ret), tm_c14(rtext, qtext, ret),
 { unimplemented!() }
+// C07: the rating slot is the rating cast to isize: the identity below 2^63, and in any case ONE-TO-ONE (distinct ratings give distinct
+// slots, so the order of two hits that differ only in their rating is decided by the comparator, never left to the selection's buffer order)
+pub open spec fn rslot(r: usize) -> isize { r as isize }
+proof fn lemma_rslot(a: usize, b: usize) // [C07]
+    ensures a != b ==> rslot(a) != rslot(b), a <= 0x7fff_ffff_ffff_ffff ==> rslot(a) == a, a > 0x7fff_ffff_ffff_ffff ==> rslot(a) < 0,
+{
+    assert(a != b ==> (a as isize) != (b as isize)) by (bit_vector);
+    assert(a > 0x7fff_ffff_ffff_ffffusize ==> (a as isize) < 0isize) by (bit_vector);
+}
 // C08: slot k of the score vector holds component k, in the documented priority order
 pub open spec fn slots_ok(h: Hit) -> bool {
     let ms = h.rmatches@; let n = ms.len() as int;
     &&& h.scores.0[0] == ref_chars(ms, n) && h.scores.0[1] == ref_words(ms, n) && h.scores.0[2] == -ref_tails(ms, n)
     &&& h.scores.0[3] == -ref_trans(ms, n - 1) && h.scores.0[4] == (if n == 0 { 1int } else if ms.last().fin { 1int } else { 0int })
-    &&& h.scores.0[5] == -ref_min_offset(ms, n) && h.scores.0[6] == h.rating && h.scores.0[7] == -(h.title.words@.len() as int)
+    &&& h.scores.0[5] == -ref_min_offset(ms, n) && h.scores.0[6] == rslot(h.rating) && h.scores.0[7] == -(h.title.words@.len() as int)
     &&& h.scores.0[8] == -ref_char_len(h.title.words@, h.title.words@.len() as int)
 }
+//@include c08_scenarios.rs
 // @item rust/core/src/search/score.rs :: fn score_chars_up
 pub fn score_chars_up(hit: &Hit) -> (ret: isize)
     // C01: the character score is signed; no provenance clause is needed of the matches (split parts do not have one)
@@ -211,9 +221,9 @@ pub fn score_offset_down(hit: &Hit) -> (ret: isize)
 }
 // @item rust/core/src/search/score.rs :: fn score_rating_up
 pub fn score_rating_up(hit: &Hit) -> (ret: isize)
-    // weakest precondition of `rating as isize` on a 64-bit target (the property bounds ratings by 2^31)
-    requires hit.rating <= 0x7fff_ffff_ffff_ffff,
-    ensures ret == hit.rating,
+    // no precondition: `rating as isize` never panics; above 2^63 it wraps (C07: still one-to-one, lemma_rslot)
+    ensures ret == rslot(hit.rating), // [C07]
+        hit.rating <= 0x7fff_ffff_ffff_ffff ==> ret == hit.rating, // [C08 C12]
 {
     hit.rating as isize
 }
@@ -244,7 +254,7 @@ pub fn score_char_len_down(hit: &Hit) -> (ret: isize)
 }
 // @item rust/core/src/search/score.rs :: fn score
 pub fn score(query: &TextRef, hit: &mut Hit)
-    requires text_wf(&old(hit).title), text_wf(query), text_small(&old(hit).title), text_small(query), old(hit).rating <= 0x7fff_ffff_ffff_ffff,
+    requires text_wf(&old(hit).title), text_wf(query), text_small(&old(hit).title), text_small(query),
     // C08: slot k of the score vector holds component k, in the documented priority order
     // (chars, words, tails, gaps, finished, offset, rating, word count, char count)
     ensures ({
@@ -263,7 +273,7 @@ pub fn score(query: &TextRef, hit: &mut Hit)
         &&& slots_ok(h) // [C08 C12 C07]
         &&& h.scores.0[0] == ref_chars(ms, n) && h.scores.0[1] == ref_words(ms, n) && h.scores.0[2] == -ref_tails(ms, n)
         &&& h.scores.0[3] == -ref_trans(ms, n - 1) && h.scores.0[4] == (if n == 0 { 1int } else if ms.last().fin { 1int } else { 0int })
-        &&& h.scores.0[5] == -ref_min_offset(ms, n) && h.scores.0[6] == h.rating && h.scores.0[7] == -(h.title.words@.len() as int)
+        &&& h.scores.0[5] == -ref_min_offset(ms, n) && h.scores.0[6] == rslot(h.rating) && h.scores.0[7] == -(h.title.words@.len() as int)
         &&& h.scores.0[8] == -ref_char_len(h.title.words@, h.title.words@.len() as int)
     }),
 {
